@@ -357,6 +357,8 @@ func init() {
 			e.assume(Implies(And(v.Tup[1].Term, Eq(v.Tup[2].Term, "nil_any")), And(has, Eq(e.reg.box(rt, v.Tup[0].Term), app("dcval", val)), app(">", v.Tup[0].Term, e.compInit[allocComp]))), "NestedMap returns a deep copy of the nested map")
 			e.assume(Implies(Not(v.Tup[1].Term), Eq(v.Tup[0].Term, "0")), "NestedMap returns nil when the field is absent or on error")
 			e.assume(Implies(Not(has), And(Not(v.Tup[1].Term), Eq(v.Tup[2].Term, "nil_any"))), "")
+			// a present field is either found (it is a map) or reported as an error (it is something else): never silently 'not found'
+			e.assume(Implies(And(has, Eq(v.Tup[2].Term, "nil_any")), v.Tup[1].Term), "NestedMap finds a present field unless it reports an error")
 		}
 		return v
 	}
